@@ -640,12 +640,16 @@ class HealSparseMap(object):
                 np.add.at(sparse_map, indices, values)
             elif operation == "or":
                 if self._is_bit_packed:
-                    sparse_map[indices] |= values
+                    # Or-ing with True sets the bit, or-ing with False is a no-op.
+                    # This accumulates correctly over repeated indices and
+                    # handles empty index arrays.
+                    sparse_map[indices[np.broadcast_to(values, indices.shape)]] = True
                 else:
                     np.bitwise_or.at(sparse_map, indices, values)
             elif operation == "and":
                 if self._is_bit_packed:
-                    sparse_map[indices] &= values
+                    # And-ing with False clears the bit, and-ing with True is a no-op.
+                    sparse_map[indices[~np.broadcast_to(values, indices.shape)]] = False
                 else:
                     np.bitwise_and.at(sparse_map, indices, values)
 
